@@ -29,6 +29,16 @@ CHECKS = {
         technique='SMT reachability (z3) over the MIR (--features serde,rayon) of the serde visitors/serializers (no own panic site reachable; serialisation = collect_map/collect_seq over own iterator) and of rayon\'s per-item closure (exactly one insert of the item); native replay over all small inputs',
         text='Serde: z3 decides on the CFG of visit_map/visit_seq/deserialize that no panic site of these functions is reachable on any path (errors leave through ?), and that every returning path of the serializers is one collect_map/collect_seq over the pinned wrapper\'s own iterator. Rayon: every parallel entry point funnels into one per-item closure, for which z3 decides that each returning path performs exactly one HashMap::insert of the item\'s key and value. Counterexamples are replayed natively over all key sequences with repetitions up to length 4 (text and self-describing deserializers) and rayon pools of 1/2/4 threads.',
         note='NOT covered (stated not-applicable part): how rayon\'s pool distributes and interleaves items - real parallelism is outside solver-based checking here; the concurrent correctness of insert itself is C01. Panics inside MapAccess/SeqAccess implementations or inside HashMap::insert are attributed to those callees.'),
+    'C16': dict(
+        level='model_checking', design='DESIGN.md §4 C16',
+        technique='region-constraint system per public signature from rustdoc JSON, decided by z3 (is "use result after guard drop/refresh, map drop, wrapper drop" satisfiable?), with rustc borrow-checking generated programs as replay oracle in both directions',
+        text='For every public method of HashMap/HashSet/HashMapRef/HashSetRef/Iter/Keys/Values whose result mentions a lifetime (discovered from rustdoc JSON of the current tree) a finite liveness-constraint system is generated per invalidation event and decided by z3; every generated program (call; event; use) is also compiled by rustc against the real crate: solver-sat + accepted = violation, any solver/rustc disagreement = inconclusive. A positive program with non-static keys, values and lookup keys through every API must compile.',
+        note='Finite system per signature, complete for the 4-point program shape; covariance of all lifetime-carrying types assumed; rustc is trusted as oracle. Says nothing about unsafe code that could make a signature lie (C03).'),
+    'C17': dict(
+        level='model_checking', design='DESIGN.md §4 C17',
+        technique='Horn-clause query (z3) over impl/method where-predicates from rustdoc JSON for every inserting entry point; rustc compiling probe programs with Send+!Sync, Sync+!Send and !Send+!Sync key/value types as replay oracle',
+        text='Every inserting entry point (discovered from rustdoc JSON with features serde,rayon: by-value K/V/T parameters, value-producing closures, Extend/FromIterator/Clone/Deserialize/FromParallelIterator/ParallelExtend impls) must have bounds that entail K,V: Send+Sync (z3 query per entry point); read-only entry points must not. 150+ probe programs instantiate each entry point with three kinds of non-thread-safe types as key and as value and must be rejected by rustc; controls with thread-safe types and a read-only program over !Send+!Sync types must compile.',
+        note='rustc\'s trait solver is the oracle; entry points without a probe template are listed in the evidence and are inconclusive if the solver finds their bounds insufficient.'),
 }
 
 NOT_APPLICABLE = {
